@@ -1,2 +1,135 @@
-// harness site: src/osu/performance/gradual.rs
+// harness site: src/osu/performance/gradual.rs — C03 (builder hand-over), C15 (gradual performance
+// nth/last protocol). The OsuGradualPerformance literal is built around an S1 difficulty state
+// (harness/osu_gradual.rs); `OsuPerformance::calculate` is replaced by a recording stub, so what is
+// decided is exactly which builder nth(state, n) hands to the one-shot calculator:
+//   attrs_i.performance().lazer(l).state(s).difficulty(d).passed_objects(idx).calculate()
 #![allow(dead_code, unused_imports, clippy::all, clippy::pedantic)]
+
+use super::*;
+use crate::any::HitResultPriority;
+use crate::model::mode::ConvertError;
+use crate::osu::difficulty::gradual::verif_harness as s1;
+use crate::osu::{OsuDifficultyAttributes, OsuPerformance};
+use crate::verif_harness::common::{ghost_probe, verif_replay_table, VerifPerf};
+
+struct Recorded {
+    difficulty: Difficulty,
+    fields: [Option<u32>; 8],
+    acc_set: bool,
+    best_case: bool,
+    attrs: Option<OsuDifficultyAttributes>,
+}
+
+static mut REC: Option<Recorded> = None;
+static mut REC_CALLS: usize = 0;
+
+pub(crate) fn rec_calculate<'map>(p: OsuPerformance<'map>) -> Result<OsuPerformanceAttributes, ConvertError>
+where
+    'map: 'map,
+{
+    unsafe {
+        REC_CALLS += 1;
+        REC = Some(Recorded {
+            difficulty: p.difficulty.clone(),
+            fields: [p.combo, p.large_tick_hits, p.small_tick_hits, p.slider_end_hits, p.n300, p.n100, p.n50, p.misses],
+            acc_set: p.acc.is_some(),
+            best_case: p.hitresult_priority == HitResultPriority::BestCase,
+            attrs: p.v_attrs().cloned(),
+        });
+    }
+    core::mem::forget(p);
+    Ok(OsuPerformanceAttributes::default())
+}
+
+fn any_state() -> OsuScoreState {
+    OsuScoreState {
+        max_combo: kani::any(),
+        large_tick_hits: kani::any(),
+        small_tick_hits: kani::any(),
+        slider_end_hits: kani::any(),
+        n300: kani::any(),
+        n100: kani::any(),
+        n50: kani::any(),
+        misses: kani::any(),
+    }
+}
+
+pub(crate) fn pgradual_step<const N: usize, const M: usize>() {
+    let w = s1::any_witness::<N>();
+    let m = s1::model_of(&w);
+    let state = any_state();
+    // symbolic settings of the gradual calculator
+    let mut d = Difficulty::new().mods(kani::any::<u32>());
+    if kani::any() {
+        d = d.lazer(kani::any());
+    }
+    if kani::any() {
+        let r: f64 = kani::any();
+        kani::assume(r >= 0.01 && r <= 100.0);
+        d = d.clock_rate(r);
+    }
+    let p = w.p;
+    let remaining = N - p;
+    let n = if w.call == 0 { 0 } else if w.call == 2 { usize::MAX } else { w.n };
+
+    if ghost_probe() || !s1::representable_as_map(&w) {
+        let mut inner = s1::literal_state::<N, M>(&w, &m);
+        inner.difficulty = d.clone();
+        let mut gp = OsuGradualPerformance { lazer: d.get_lazer(), difficulty: inner };
+        assert!(gp.len() == remaining, "C15 osu gradual performance: len() is the number of objects left");
+        let res = match w.call {
+            0 => gp.next(state.clone()),
+            2 => gp.last(state.clone()),
+            _ => gp.nth(state.clone(), n),
+        };
+        // nth(state, n) processes min(n + 1, remaining) objects; None exactly when nothing remains
+        assert!(res.is_some() == (remaining > 0), "C15 osu gradual performance: None exactly when nothing remains");
+        if remaining > 0 {
+            let k = core::cmp::min(p.saturating_add(n).saturating_add(1), N);
+            assert!(gp.difficulty.idx == k, "C15 osu gradual performance: processes min(n + 1, remaining) objects");
+            if ghost_probe() {
+                let rec = unsafe { REC.as_ref() };
+                assert!(unsafe { REC_CALLS } == 1 && rec.is_some(), "C03 osu: exactly one one-shot calculation per step");
+                let rec = rec.unwrap();
+                let want_d = d.clone().passed_objects(k as u32);
+                assert!(rec.difficulty == want_d, "C03 osu: the one-shot builder gets the gradual settings with passed_objects(idx)");
+                assert!(rec.difficulty.get_lazer() == d.get_lazer(), "C03 osu: the lazer flag is carried over");
+                let s = &state;
+                assert!(rec.fields == [Some(s.max_combo), Some(s.large_tick_hits), Some(s.small_tick_hits), Some(s.slider_end_hits),
+                    Some(s.n300), Some(s.n100), Some(s.n50), Some(s.misses)], "C03 osu: the one-shot builder gets exactly the given score state");
+                assert!(!rec.acc_set && rec.best_case, "C03 osu: no accuracy or priority leaks into the one-shot builder");
+                let a = rec.attrs.as_ref();
+                assert!(a.is_some(), "C03 osu: the one-shot builder is attribute-backed");
+                let a = a.unwrap();
+                assert!(a.n_circles == m.circles[k] && a.n_sliders == m.sliders[k] && a.n_spinners == m.spinners[k]
+                    && a.n_large_ticks == m.ticks[k] && a.max_combo == m.combo[k],
+                    "C03 osu: the one-shot builder holds the attributes of exactly the processed prefix");
+            }
+        } else if ghost_probe() {
+            assert!(unsafe { REC_CALLS } == 0, "C03 osu: nothing is calculated when nothing remains");
+        }
+        kani::cover!(N < 2 || (w.call == 2 && remaining > 1), "last() with several objects left");
+        kani::cover!(N < 2 || (w.call == 1 && n > 0 && n < remaining), "nth inside the map");
+        kani::cover!(remaining == 0, "nothing remains");
+        core::mem::forget(gp);
+    } else {
+        // native replay through the public API: the real calculators must agree
+        let map = s1::map_of(&w);
+        let mut gp = OsuGradualPerformance::new(d.clone(), &map).unwrap();
+        for _ in 0..p {
+            let _ = gp.next(state.clone());
+        }
+        let res = match w.call {
+            0 => gp.next(state.clone()),
+            2 => gp.last(state.clone()),
+            _ => gp.nth(state.clone(), n),
+        };
+        assert!(res.is_some() == (remaining > 0), "C15 osu gradual performance: None exactly when nothing remains");
+        if let Some(res) = res {
+            let k = core::cmp::min(p.saturating_add(n).saturating_add(1), N);
+            let one = OsuPerformance::new(&map).difficulty(d.clone()).passed_objects(k as u32).state(state.clone()).calculate().unwrap();
+            assert!(one == res, "C03 osu: gradual performance equals one-shot performance on the prefix");
+        }
+    }
+}
+
